@@ -110,6 +110,20 @@ impl BisyncEngine {
         // 4. Classify changes
         let changes = classify_changes(&source_files, &dest_files, &prior_state)?;
 
+        // A path that one side's scan does not list although it exists there is hidden by an
+        // ignore rule (.ignore, .gitignore), not deleted and not missing: it is left alone on both
+        // sides. Treated as a deletion it removed the other side's copy (or, in a conflict, threw
+        // away the hidden side's edit); treated as missing it was overwritten.
+        let changes: Vec<Change> = changes
+            .into_iter()
+            .filter(|c| {
+                let hidden = |entry: &Option<crate::sync::scanner::FileEntry>, root: &Path| {
+                    entry.is_none() && std::fs::symlink_metadata(root.join(&c.path)).is_ok()
+                };
+                !(hidden(&c.source_entry, source) || hidden(&c.dest_entry, dest))
+            })
+            .collect();
+
         // 5. Check deletion limit
         check_deletion_limit(&changes, opts.max_delete_percent)?;
 
